@@ -208,8 +208,6 @@ Lemma sigeqb_refl : forall fs x, sigeqb fs x x = true.
 Proof. intros. apply sigeqb_sig. reflexivity. Qed.
 
 (* one step of the sub-classification as written in the model *)
-Definition substep (fs : list (urec -> list N)) (g : list urec) : list (list urec) :=
-  match g with [_] => [g] | _ => subclass fs g end.
 
 Lemma subclass_cons : forall f fs b, subclass (f :: fs) b = flat_map (substep fs) (groups f b).
 Proof. reflexivity. Qed.
@@ -297,70 +295,135 @@ Proof.
       destruct (K c g Hc Hg) as [_ [t Ht]]. destruct (K c' g' Hc' Hg') as [_ [t' Ht']]. congruence.
 Qed.
 
+(** * typed values *)
+Lemma oZ_eqb_eq : forall a b, oZ_eqb a b = true <-> a = b.
+Proof.
+  intros [x|] [y|]; cbn; try (split; [discriminate | intro H; inversion H]); [|tauto].
+  rewrite Z.eqb_eq. split; [intros; subst; reflexivity | intro H; inversion H; reflexivity].
+Qed.
+
+Lemma val_eqb_eq : forall v w, val_eqb v w = true <-> v = w.
+Proof.
+  intros [t p e s i] [t' p' e' s' i']. unfold val_eqb. cbn [vtag vprint vexact vstat vint].
+  rewrite !andb_true_iff, !N.eqb_eq, oZ_eqb_eq. split.
+  - intros [[[[A B] C] D] E]. subst. reflexivity.
+  - intro H. inversion H. subst. auto.
+Qed.
+
+Lemma val_eqb_refl : forall v, val_eqb v v = true.
+Proof. intro v. apply val_eqb_eq. reflexivity. Qed.
+
+(** typing hypothesis for a classification attribute c and a pair of records: the printed form (what the classifier
+    compares) determines the typed value (what Merge compares) *)
+Definition typed_pair (c : N) (x r : urec) : Prop :=
+  forall w v', In (c, w) (uann x) -> lookup c (uann r) = Some v' -> vprint w = vprint v' -> w = v'.
+
+Lemma lookup_filter_none {V} (p : N * V -> bool) (m : list (N * V)) c :
+  (forall w, p (c, w) = false) -> lookup c (filter p m) = None.
+Proof.
+  intro H. induction m as [|[k w] t IH]; cbn [filter lookup]; [reflexivity|].
+  destruct (p (k, w)) eqn:Ep; [|exact IH]. cbn [lookup]. destruct (c =? k) eqn:E; [|exact IH].
+  apply N.eqb_eq in E. subst k. rewrite H in Ep. discriminate.
+Qed.
+
 (** * merging a class *)
 Section Merge.
+  Variable ds : dspec.
   Variable na : N.
   Variable sts : list N.
 
-  Definition merge1 (x : urec) (rest : list urec) : urec := fold_left (merge2 na sts) rest (init na sts x).
+  (* the merge of a class as a plain fold (what merge1 is when the class has several records, or a count >= 1) *)
+  Definition mergef (x : urec) (rest : list urec) : urec := fold_left (merge2 ds na sts) rest (init ds na sts x).
 
-  Lemma merge_class_cons : forall x rest, merge_class na sts (x :: rest) = [merge1 x rest].
+  Lemma merge_class_cons : forall x rest, merge_class ds na sts (x :: rest) = [merge1 ds na sts x rest].
   Proof. reflexivity. Qed.
 
-  Lemma fold_merge2_seq : forall rest acc, useq (fold_left (merge2 na sts) rest acc) = useq acc.
-  Proof. induction rest as [|r rest IH]; intro acc; cbn [fold_left]; [reflexivity | rewrite IH; reflexivity]. Qed.
+  Lemma clamp1_pos : forall z, (1 <= z)%Z -> clamp1 z = z.
+  Proof. intros z H. unfold clamp1. destruct (z <? 1)%Z eqn:E; [apply Z.ltb_lt in E; lia | reflexivity]. Qed.
 
-  Lemma fold_merge2_count : forall rest acc,
-    ucount (fold_left (merge2 na sts) rest acc) = (ucount acc + zsum ucount rest)%Z.
+  Lemma setcount_pos : forall x, (1 <= ucount x)%Z -> setcount x = x.
+  Proof. intros [s c a m] H. unfold setcount. cbn [useq ucount uann umerged] in *. rewrite clamp1_pos by exact H. reflexivity. Qed.
+
+  Lemma merge1_mergef : forall x rest, (1 <= ucount x)%Z -> merge1 ds na sts x rest = mergef x rest.
+  Proof. intros x [|r rest] H; unfold merge1, mergef; [rewrite setcount_pos by exact H|]; reflexivity. Qed.
+
+  Lemma clamp1_ge : forall z, (1 <= clamp1 z)%Z.
+  Proof. intro z. unfold clamp1. destruct (z <? 1)%Z eqn:E; [lia | apply Z.ltb_ge in E; exact E]. Qed.
+
+  Lemma fold_merge2_ge : forall rest acc, (1 <= ucount acc)%Z -> (1 <= ucount (fold_left (merge2 ds na sts) rest acc))%Z.
+  Proof. induction rest as [|r rest IH]; intros acc H; cbn [fold_left]; [exact H|]. apply IH. cbn [merge2 ucount]. apply clamp1_ge. Qed.
+
+  (* SetCount: every output record has a count >= 1, whatever the input *)
+  Lemma merge1_count_ge : forall x rest, (1 <= ucount (merge1 ds na sts x rest))%Z.
   Proof.
-    induction rest as [|r rest IH]; intro acc; cbn [fold_left zsum]; [lia|].
-    rewrite IH. cbn [merge2 ucount]. lia.
+    intros x [|r rest]; unfold merge1.
+    - cbn [init ucount setcount]. apply clamp1_ge.
+    - cbn [fold_left]. apply fold_merge2_ge. cbn [merge2 ucount]. apply clamp1_ge.
   Qed.
 
-  Lemma merge1_seq : forall x rest, useq (merge1 x rest) = useq x.
-  Proof. intros. unfold merge1. rewrite fold_merge2_seq. reflexivity. Qed.
+  Lemma merge1_seq_ann : forall x rest, useq (merge1 ds na sts x rest) = useq (mergef x rest) /\ uann (merge1 ds na sts x rest) = uann (mergef x rest).
+  Proof. intros x [|r rest]; split; reflexivity. Qed.
 
-  Lemma merge1_count : forall x rest, ucount (merge1 x rest) = zsum ucount (x :: rest).
-  Proof. intros. unfold merge1. rewrite fold_merge2_count. reflexivity. Qed.
+  Lemma fold_merge2_seq : forall rest acc, useq (fold_left (merge2 ds na sts) rest acc) = useq acc.
+  Proof. induction rest as [|r rest IH]; intro acc; cbn [fold_left]; [reflexivity | rewrite IH; reflexivity]. Qed.
+
+  Lemma fold_merge2_count : forall rest acc, (1 <= ucount acc)%Z -> (forall r, In r rest -> (1 <= ucount r)%Z) ->
+    ucount (fold_left (merge2 ds na sts) rest acc) = (ucount acc + zsum ucount rest)%Z.
+  Proof.
+    induction rest as [|r rest IH]; intros acc Ha Hr; cbn [fold_left zsum]; [lia|].
+    pose proof (Hr r (or_introl eq_refl)) as H1.
+    assert (E : ucount (merge2 ds na sts acc r) = (ucount acc + ucount r)%Z) by (cbn [merge2 ucount]; apply clamp1_pos; lia).
+    rewrite IH; [rewrite E; lia | rewrite E; lia | intros r' Hr'; apply Hr; right; exact Hr'].
+  Qed.
+
+  Lemma mergef_seq : forall x rest, useq (mergef x rest) = useq x.
+  Proof. intros. unfold mergef. rewrite fold_merge2_seq. reflexivity. Qed.
+
+  Lemma mergef_count : forall x rest, (forall r, In r (x :: rest) -> (1 <= ucount r)%Z) ->
+    ucount (mergef x rest) = zsum ucount (x :: rest).
+  Proof.
+    intros x rest H. unfold mergef. rewrite fold_merge2_count; [reflexivity | cbn [init ucount]; apply H; left; reflexivity |].
+    intros r Hr. apply H. right. exact Hr.
+  Qed.
 
   (* merged_<k> maps *)
   Lemma fold_merge2_stats : forall k v, In k sts -> forall rest acc m,
     lookup k (umerged acc) = Some m ->
-    exists m', lookup k (umerged (fold_left (merge2 na sts) rest acc)) = Some m' /\
-               stat_get v m' = (stat_get v m + zsum (fun r => stat_get v (smap na r k)) rest)%Z.
+    exists m', lookup k (umerged (fold_left (merge2 ds na sts) rest acc)) = Some m' /\
+               stat_get v m' = (stat_get v m + zsum (fun r => stat_get v (smap ds na r k)) rest)%Z.
   Proof.
     intros k v Hk. induction rest as [|r rest IH]; intros acc m Hm; cbn [fold_left zsum].
     - exists m. split; [exact Hm | lia].
     - set (m1 := match lookup k (umerged r) with
-                 | Some mmk => stat_merge (smap na acc k) mmk
-                 | None => stat_add (aval na r k) (ucount r) (smap na acc k) end).
-      assert (H1 : lookup k (umerged (merge2 na sts acc r)) = Some m1).
+                 | Some mmk => stat_merge (smap ds na acc k) mmk
+                 | None => stat_add (sval na r (fst (ds k))) (wgt ds r k) (smap ds na acc k) end).
+      assert (H1 : lookup k (umerged (merge2 ds na sts acc r)) = Some m1).
       { cbn [merge2 umerged]. apply (lookup_map_in (fun k => match lookup k (umerged r) with
-                 | Some mmk => stat_merge (smap na acc k) mmk
-                 | None => stat_add (aval na r k) (ucount r) (smap na acc k) end)). exact Hk. }
+                 | Some mmk => stat_merge (smap ds na acc k) mmk
+                 | None => stat_add (sval na r (fst (ds k))) (wgt ds r k) (smap ds na acc k) end)). exact Hk. }
       destruct (IH _ _ H1) as [m' [Hm' Hs]]. exists m'. split; [exact Hm'|].
-      rewrite Hs. assert (E : stat_get v m1 = (stat_get v m + stat_get v (smap na r k))%Z).
-      { unfold m1. assert (Ea : smap na acc k = m) by (unfold smap; rewrite Hm; reflexivity). rewrite Ea.
+      rewrite Hs. assert (E : stat_get v m1 = (stat_get v m + stat_get v (smap ds na r k))%Z).
+      { unfold m1. assert (Ea : smap ds na acc k = m) by (unfold smap; rewrite Hm; reflexivity). rewrite Ea.
         unfold smap at 1. destruct (lookup k (umerged r)) as [mmk|].
         - apply stat_get_merge.
         - rewrite stat_get_add. cbn [stat_get]. lia. }
       lia.
   Qed.
 
-  Lemma merge1_stats : forall k v x rest, In k sts ->
-    exists m, lookup k (umerged (merge1 x rest)) = Some m /\
-              stat_get v m = zsum (fun r => stat_get v (smap na r k)) (x :: rest).
+  Lemma mergef_stats : forall k v x rest, In k sts ->
+    exists m, lookup k (umerged (mergef x rest)) = Some m /\
+              stat_get v m = zsum (fun r => stat_get v (smap ds na r k)) (x :: rest).
   Proof.
-    intros k v x rest Hk. unfold merge1.
-    assert (H0 : lookup k (umerged (init na sts x)) = Some (smap na x k)).
-    { cbn [init umerged]. apply (lookup_map_in (fun k => smap na x k)). exact Hk. }
+    intros k v x rest Hk. unfold mergef.
+    assert (H0 : lookup k (umerged (init ds na sts x)) = Some (smap ds na x k)).
+    { cbn [init umerged]. apply (lookup_map_in (fun k => smap ds na x k)). exact Hk. }
     destruct (fold_merge2_stats k v Hk rest _ _ H0) as [m [Hm Hs]]. exists m. split; [exact Hm|].
     rewrite Hs. reflexivity.
   Qed.
 
   (* annotations *)
   Lemma fold_merge2_ann : forall rest acc kv,
-    In kv (uann (fold_left (merge2 na sts) rest acc)) <->
+    In kv (uann (fold_left (merge2 ds na sts) rest acc)) <->
     In kv (uann acc) /\ forall r, In r rest -> lookup (fst kv) (uann r) = Some (snd kv).
   Proof.
     induction rest as [|r rest IH]; intros acc kv; cbn [fold_left].
@@ -369,51 +432,66 @@ Section Merge.
       split.
       + intros [[Ha Hr] Hrest]. split; [exact Ha|]. intros r' [E|Hin]; [|apply Hrest; exact Hin].
         subst r'. destruct (lookup (fst kv) (uann r)) as [v'|]; [|discriminate].
-        apply N.eqb_eq in Hr. congruence.
+        apply val_eqb_eq in Hr. congruence.
       + intros [Ha Hall]. split; [split; [exact Ha|] | intros r' Hr'; apply Hall; right; exact Hr'].
-        rewrite (Hall r (or_introl eq_refl)). apply N.eqb_refl.
+        rewrite (Hall r (or_introl eq_refl)). apply val_eqb_refl.
   Qed.
 
-  Lemma merge1_ann : forall x rest kv,
-    In kv (uann (merge1 x rest)) <->
+  Lemma mergef_ann : forall x rest kv,
+    In kv (uann (mergef x rest)) <->
     In kv (uann x) /\ forall r, In r rest -> lookup (fst kv) (uann r) = Some (snd kv).
-  Proof. intros. unfold merge1. rewrite fold_merge2_ann. cbn [init uann]. tauto. Qed.
+  Proof. intros. unfold mergef. rewrite fold_merge2_ann. cbn [init uann]. tauto. Qed.
 
   (* the value of a classification attribute is kept when every member has it *)
-  Lemma aval_merge2 : forall acc r c, aval na acc c = aval na r c -> aval na (merge2 na sts acc r) c = aval na acc c.
+  Lemma aval_merge2 : forall acc r c, aval na acc c = aval na r c -> typed_pair c acc r ->
+    aval na (merge2 ds na sts acc r) c = aval na acc c.
   Proof.
-    intros acc r c. unfold aval. cbn [merge2 uann]. unfold agree.
+    intros acc r c. unfold aval, typed_pair. cbn [merge2 uann].
     destruct (lookup c (uann r)) as [v'|] eqn:Er.
-    - induction (uann acc) as [|[k w] t IH]; cbn [lookup filter fst snd]; intro H; [reflexivity|].
+    - intros H T. assert (T' : forall w, In (c, w) (uann acc) -> vprint w = vprint v' -> w = v') by (intros w Hw; apply (T w v' Hw eq_refl)).
+      clear T. revert T' H.
+      induction (uann acc) as [|[k w] t IH]; cbn [lookup filter fst snd]; intros T H; [reflexivity|].
+      unfold agree at 1. cbn [fst snd].
       destruct (c =? k) eqn:E.
-      + apply N.eqb_eq in E. subst k. rewrite Er. subst w. rewrite N.eqb_refl. cbn [lookup]. rewrite N.eqb_refl. reflexivity.
-      + destruct (match lookup k (uann r) with Some v'0 => w =? v'0 | None => false end); cbn [lookup]; [rewrite E|]; apply IH; exact H.
-    - intro H. rewrite H. clear H.
-      assert (L : lookup c (filter (fun kv => match lookup (fst kv) (uann r) with Some v' => snd kv =? v' | None => false end) (uann acc)) = None).
-      { induction (uann acc) as [|[k w] t IH]; cbn [lookup filter fst snd]; [reflexivity|].
-        destruct (c =? k) eqn:E.
-        - apply N.eqb_eq in E. subst k. rewrite Er. exact IH.
-        - destruct (match lookup k (uann r) with Some v'0 => w =? v'0 | None => false end); cbn [lookup]; [rewrite E|]; exact IH. }
-      rewrite L. reflexivity.
+      + apply N.eqb_eq in E. subst k. rewrite Er.
+        assert (Ew : w = v') by (apply T; [left; reflexivity | exact H]). subst w.
+        rewrite val_eqb_refl. cbn [lookup]. rewrite N.eqb_refl. reflexivity.
+      + assert (T2 : forall w0, In (c, w0) t -> vprint w0 = vprint v' -> w0 = v') by (intros w0 Hw0; apply T; right; exact Hw0).
+        destruct (match lookup k (uann r) with Some v'0 => val_eqb w v'0 | None => false end); cbn [lookup]; [rewrite E|]; apply IH; assumption.
+    - intros H _. rewrite H. rewrite lookup_filter_none; [reflexivity|].
+      intro w. unfold agree. cbn [fst]. rewrite Er. reflexivity.
   Qed.
 
-  Lemma aval_init : forall x c, aval na (init na sts x) c = aval na x c.
+  Lemma aval_init : forall x c, aval na (init ds na sts x) c = aval na x c.
   Proof. reflexivity. Qed.
 
-  Lemma aval_merge1 : forall c x rest, (forall r, In r rest -> aval na r c = aval na x c) ->
-    aval na (merge1 x rest) c = aval na x c.
+  Lemma fold_merge2_sub : forall rest acc kv, In kv (uann (fold_left (merge2 ds na sts) rest acc)) -> In kv (uann acc).
+  Proof. intros rest acc kv H. apply fold_merge2_ann in H. apply H. Qed.
+
+  Lemma aval_mergef : forall c x rest, (forall r, In r rest -> aval na r c = aval na x c) ->
+    (forall r, In r rest -> typed_pair c x r) ->
+    aval na (mergef x rest) c = aval na x c.
   Proof.
-    intros c x rest. unfold merge1. rewrite <- (aval_init x c). generalize (init na sts x) as acc.
-    induction rest as [|r rest IH]; intros acc H; cbn [fold_left]; [reflexivity|].
+    intros c x rest. unfold mergef. rewrite <- (aval_init x c).
+    assert (S0 : forall kv, In kv (uann (init ds na sts x)) -> In kv (uann x)) by (intros kv H; exact H).
+    revert S0. generalize (init ds na sts x) as acc.
+    induction rest as [|r rest IH]; intros acc S0 H T; cbn [fold_left]; [reflexivity|].
+    assert (Tacc : typed_pair c acc r).
+    { intros w v' Hw. apply (T r (or_introl eq_refl)). apply S0. exact Hw. }
     rewrite IH.
-    - apply aval_merge2. symmetry. apply H. left. reflexivity.
-    - intros r' Hr'. rewrite aval_merge2; [apply H; right; exact Hr' | symmetry; apply H; left; reflexivity].
+    - apply aval_merge2; [symmetry; apply H; left; reflexivity | exact Tacc].
+    - intros kv Hkv. apply S0. cbn [merge2 uann] in Hkv. apply (proj1 (filter_In _ _ _) Hkv).
+    - intros r' Hr'. rewrite aval_merge2; [apply H; right; exact Hr' | symmetry; apply H; left; reflexivity | exact Tacc].
+    - intros r' Hr'. apply T. right. exact Hr'.
   Qed.
 End Merge.
 
-Lemma zsum_merge_class : forall na sts g, zsum ucount (merge_class na sts g) = zsum ucount g.
+Definition pos_counts (g : list urec) : Prop := forall r, In r g -> (1 <= ucount r)%Z.
+
+Lemma zsum_merge_class : forall ds na sts g, pos_counts g -> zsum ucount (merge_class ds na sts g) = zsum ucount g.
 Proof.
-  intros na sts [|x rest]; [reflexivity|]. rewrite merge_class_cons. cbn [zsum]. rewrite merge1_count. cbn [zsum]. lia.
+  intros ds na sts [|x rest] P; [reflexivity|]. rewrite merge_class_cons. cbn [zsum].
+  rewrite merge1_mergef by (apply P; left; reflexivity). rewrite mergef_count by exact P. cbn [zsum]. lia.
 Qed.
 
 Lemma zsum_concat {A} (F : A -> Z) (bs : list (list A)) : zsum F (concat bs) = zsum (fun g => zsum F g) bs.
@@ -433,6 +511,7 @@ Proof. intro H. split; [apply in_lookup; exact H | apply lookup_in]. Qed.
 (** * the whole dereplication *)
 Section UniqProofs.
   Variable cats : list N.
+  Variable ds : dspec.
   Variable sts : list N.
   Variable na : N.
 
@@ -455,6 +534,15 @@ Section UniqProofs.
   Lemma key_aval : forall x y, key x = key y -> forall c, In c cats -> aval na x c = aval na y c.
   Proof. intros x y E c Hc. unfold key in E. inversion E as [[E1 E2]]. apply (ext_in_map E2). exact Hc. Qed.
 
+  (* typing hypothesis on a data set: for the classification attributes, the printed form determines the typed value *)
+  Definition typed (l : list urec) : Prop :=
+    forall x r c, In x l -> In r l -> In c cats -> typed_pair c x r.
+
+  Lemma typed_perm : forall l l', Permutation l l' -> typed l -> typed l'.
+  Proof.
+    intros l l' P T x r c Hx Hr Hc. apply T; [apply (Permutation_in _ (Permutation_sym P)); exact Hx | apply (Permutation_in _ (Permutation_sym P)); exact Hr | exact Hc].
+  Qed.
+
   Section WithHash.
   Variable h : list N -> nat.
   Variable nchunks : nat.
@@ -462,7 +550,7 @@ Section UniqProofs.
 
   Notation LV := (levels h nchunks cats na).
   Notation BATCHES := (batches h nchunks cats na).
-  Notation UNIQ := (uniq h nchunks cats sts na nosingleton).
+  Notation UNIQ := (uniq h nchunks cats ds sts na nosingleton).
 
   Lemma levels_same_key : forall x r, sigeqb LV x r = same_key x r.
   Proof.
@@ -502,35 +590,72 @@ Section UniqProofs.
     apply same_key_key in E. rewrite (filter_ext _ _ (same_key_ext _ _ (eq_sym E))). rewrite <- Eg. exact Hg.
   Qed.
 
-  Lemma key_merge1 : forall x rest, (forall r, In r rest -> key r = key x) -> key (merge1 na sts x rest) = key x.
+  Lemma key_mergef : forall x rest, (forall r, In r rest -> key r = key x) ->
+    (forall r c, In r rest -> In c cats -> typed_pair c x r) -> key (mergef ds na sts x rest) = key x.
   Proof.
-    intros x rest H. unfold key. rewrite merge1_seq. f_equal. apply map_ext_in. intros c Hc.
-    apply aval_merge1. intros r Hr. apply key_aval; [apply H; exact Hr | exact Hc].
+    intros x rest H T. unfold key. rewrite mergef_seq. f_equal. apply map_ext_in. intros c Hc.
+    apply aval_mergef; [intros r Hr; apply key_aval; [apply H; exact Hr | exact Hc] | intros r Hr; apply T; assumption].
   Qed.
 
-  (* characterisation of the output records *)
-  Lemma out_char : forall l o, In o (UNIQ l) ->
-    exists x rest, filter (same_key o) l = x :: rest /\ o = merge1 na sts x rest /\
+  (* the class of a batch head *)
+  Lemma class_members : forall l x0 x rest, x :: rest = filter (same_key x0) l ->
+    In x l /\ key x = key x0 /\ (forall r, In r rest -> In r l /\ key r = key x) /\ filter (same_key x) l = x :: rest.
+  Proof.
+    intros l x0 x rest Eg.
+    assert (Hmem : forall r, In r (x :: rest) -> In r l /\ key r = key x0).
+    { intros r Hr. rewrite Eg in Hr. apply (proj1 (filter_In _ _ _)) in Hr. destruct Hr as [Hl Hr].
+      apply same_key_key in Hr. auto. }
+    destruct (Hmem x (or_introl eq_refl)) as [Hx Kx].
+    split; [exact Hx | split; [exact Kx | split]].
+    - intros r Hr. destruct (Hmem r (or_intror Hr)) as [Hl Kr]. split; [exact Hl | congruence].
+    - rewrite (filter_ext _ _ (same_key_ext _ _ Kx)). symmetry. exact Eg.
+  Qed.
+
+  Lemma key_mergef_class : forall l x rest, typed l -> filter (same_key x) l = x :: rest -> key (mergef ds na sts x rest) = key x.
+  Proof.
+    intros l x rest T Ef. destruct (class_members l x x rest (eq_sym Ef)) as [Hx [_ [Hm _]]].
+    apply key_mergef; [intros r Hr; apply (Hm r Hr) | intros r c Hr Hc; apply T; [exact Hx | apply (Hm r Hr) | exact Hc]].
+  Qed.
+
+  Lemma key_seq_ann : forall a b, useq a = useq b -> uann a = uann b -> key a = key b.
+  Proof. intros a b E1 E2. unfold key, aval. rewrite E1, E2. reflexivity. Qed.
+
+  Lemma key_merge1_class : forall l x rest, typed l -> filter (same_key x) l = x :: rest -> key (merge1 ds na sts x rest) = key x.
+  Proof.
+    intros l x rest T Ef. rewrite <- (key_mergef_class l x rest T Ef).
+    destruct (merge1_seq_ann ds na sts x rest) as [E1 E2]. apply key_seq_ann; assumption.
+  Qed.
+
+  (* members of a class of a data set with counts >= 1 *)
+  Lemma class_pos : forall l x rest, pos_counts l -> filter (same_key x) l = x :: rest -> pos_counts (x :: rest).
+  Proof. intros l x rest P Ef r Hr. apply P. rewrite <- Ef in Hr. apply (proj1 (filter_In _ _ _) Hr). Qed.
+
+  (* characterisation of the output records: the merge of one whole class (no typing hypothesis) ... *)
+  Lemma out_class : forall l o, In o (UNIQ l) ->
+    exists x rest, filter (same_key x) l = x :: rest /\ o = merge1 ds na sts x rest /\
                    keep nosingleton (x :: rest) = true /\ In x l.
   Proof.
     intros l o Ho. unfold uniq in Ho. apply in_flat_map in Ho. destruct Ho as [g [Hg Ho]].
     apply filter_In in Hg. destruct Hg as [Hg Hk].
     destruct (batches_char l g Hg) as [x0 [Hx0 Eg]].
     destruct g as [|x rest]; [destruct Ho|]. rewrite merge_class_cons in Ho. destruct Ho as [Ho|[]].
-    assert (Hmem : forall r, In r (x :: rest) -> key r = key x0).
-    { intros r Hr. rewrite Eg in Hr. apply (proj1 (filter_In _ _ _)) in Hr. destruct Hr as [_ Hr].
-      apply same_key_key in Hr. auto. }
-    assert (Ko : key o = key x0).
-    { subst o. rewrite key_merge1.
-      - apply Hmem. left. reflexivity.
-      - intros r Hr. rewrite (Hmem r (or_intror Hr)). symmetry. apply Hmem. left. reflexivity. }
-    exists x, rest. split; [|split; [auto | split; [exact Hk|]]].
-    - rewrite (filter_ext _ _ (same_key_ext _ _ Ko)). symmetry. exact Eg.
-    - assert (Hx : In x (x :: rest)) by (left; reflexivity). rewrite Eg in Hx. apply (proj1 (filter_In _ _ _) Hx).
+    destruct (class_members l x0 x rest Eg) as [Hx [_ [_ Ef]]].
+    exists x, rest. auto.
+  Qed.
+
+  (* ... and, on a well typed data set, the record shows the key of its class *)
+  Lemma out_char : forall l o, typed l -> In o (UNIQ l) ->
+    exists x rest, filter (same_key o) l = x :: rest /\ o = merge1 ds na sts x rest /\
+                   keep nosingleton (x :: rest) = true /\ In x l.
+  Proof.
+    intros l o T Ho. destruct (out_class l o Ho) as [x [rest [Ef [Eo [Hk Hx]]]]].
+    exists x, rest. split; [|auto].
+    assert (Ko : key o = key x) by (rewrite Eo; apply (key_merge1_class l); assumption).
+    rewrite (filter_ext _ _ (same_key_ext _ _ Ko)). exact Ef.
   Qed.
 
   Lemma out_of_batch : forall l x rest, In (x :: rest) (BATCHES l) -> keep nosingleton (x :: rest) = true ->
-    In (merge1 na sts x rest) (UNIQ l).
+    In (merge1 ds na sts x rest) (UNIQ l).
   Proof.
     intros l x rest Hg Hk. unfold uniq. apply in_flat_map. exists (x :: rest). split.
     - apply filter_In. split; assumption.
@@ -547,11 +672,11 @@ Section UniqProofs.
     rewrite <- map_rev, !map_map. reflexivity.
   Qed.
 
-  Lemma uniq_keys_nodup : forall l, NoDup (map key (UNIQ l)).
+  Lemma uniq_keys_nodup : forall l, typed l -> NoDup (map key (UNIQ l)).
   Proof.
-    intro l. apply (NoDup_map_inv (fun k => Some (psi k))). rewrite map_map.
+    intros l T. apply (NoDup_map_inv (fun k => Some (psi k))). rewrite map_map.
     assert (E : forall bs, (forall g, In g bs -> In g (BATCHES l)) ->
-                map (fun o => Some (psi (key o))) (flat_map (merge_class na sts) bs) = map (bsig LV) bs).
+                map (fun o => Some (psi (key o))) (flat_map (merge_class ds na sts) bs) = map (bsig LV) bs).
     { induction bs as [|g bs IH]; intro Hall; [reflexivity|]. cbn [flat_map map]. rewrite map_app, IH.
       - change (bsig LV g :: map (bsig LV) bs) with ([bsig LV g] ++ map (bsig LV) bs). f_equal.
         destruct (batches_char l g (Hall g (or_introl eq_refl))) as [x0 [Hx0 Eg]].
@@ -562,22 +687,29 @@ Section UniqProofs.
           assert (Hmem : forall r, In r (x :: rest) -> key r = key x0).
           { intros r Hr. rewrite Eg in Hr. apply (proj1 (filter_In _ _ _)) in Hr. destruct Hr as [_ Hr].
             apply same_key_key in Hr. auto. }
-          rewrite key_merge1; [reflexivity|].
-          intros r Hr. rewrite (Hmem r (or_intror Hr)). symmetry. apply Hmem. left. reflexivity.
+          destruct (class_members l x0 x rest Eg) as [_ [Kx [_ Ef]]].
+          rewrite (key_merge1_class l); [rewrite Kx; reflexivity | exact T | exact Ef].
       - intros g' Hg'. apply Hall. right. exact Hg'. }
     unfold uniq. rewrite E.
     - apply NoDup_map_filter. apply subclass_nodup.
     - intros g Hg. apply (proj1 (filter_In _ _ _) Hg).
   Qed.
 
-  Lemma uniq_total : forall l,
+  Lemma batches_pos : forall l g, pos_counts l -> In g (BATCHES l) -> pos_counts g.
+  Proof.
+    intros l g P Hg r Hr. destruct (batches_char l g Hg) as [x [_ Eg]]. rewrite Eg in Hr. apply P. apply (proj1 (filter_In _ _ _) Hr).
+  Qed.
+
+  Lemma uniq_total : forall l, pos_counts l ->
     (zsum ucount (UNIQ l) + zsum (fun g => zsum ucount g) (filter (fun g => negb (keep nosingleton g)) (BATCHES l)))%Z
     = zsum ucount l.
   Proof.
-    intro l. rewrite <- (zsum_perm ucount _ _ (subclass_perm LV l)). fold (BATCHES l).
+    intros l P. rewrite <- (zsum_perm ucount _ _ (subclass_perm LV l)). fold (BATCHES l).
     unfold uniq. rewrite zsum_flat_map. rewrite zsum_concat.
-    induction (BATCHES l) as [|g bs IH]; [reflexivity|]. cbn [filter zsum].
-    destruct (keep nosingleton g); cbn [negb zsum]; rewrite ?zsum_merge_class; lia.
+    pose proof (batches_pos l) as PB. revert PB.
+    induction (BATCHES l) as [|g bs IH]; intro PB; [reflexivity|]. cbn [filter zsum].
+    assert (IH' := IH (fun g' P' Hg' => PB g' P' (or_intror Hg'))).
+    destruct (keep nosingleton g); cbn [negb zsum]; rewrite ?zsum_merge_class by (apply PB; [exact P | left; reflexivity]); lia.
   Qed.
   End WithHash.
 End UniqProofs.
@@ -585,6 +717,7 @@ End UniqProofs.
 (** * theorem-shaped statements *)
 Section Statements.
   Variable cats : list N.
+  Variable ds : dspec.
   Variable sts : list N.
   Variable na : N.
   Variable h : list N -> nat.
@@ -592,52 +725,50 @@ Section Statements.
 
   Notation KEY := (key cats na).
   Notation SAME := (same_key cats na).
-  Notation UNIQ ns := (uniq h nchunks cats sts na ns).
+  Notation UNIQ ns := (uniq h nchunks cats ds sts na ns).
   Notation BATCHES := (batches h nchunks cats na).
 
   Lemma keep_false : forall g, keep false g = true.
   Proof. reflexivity. Qed.
 
-  Lemma uniq_keys_exact : forall l k, In k (map KEY (UNIQ false l)) <-> In k (map KEY l).
+  Notation TYPED := (typed cats).
+
+  Lemma uniq_keys_exact : forall l k, TYPED l -> (In k (map KEY (UNIQ false l)) <-> In k (map KEY l)).
   Proof.
-    intros l k. rewrite !in_map_iff. split.
-    - intros [o [Ek Ho]]. destruct (out_char cats sts na h nchunks false l o Ho) as [x [rest [Ef [Eo [_ Hx]]]]].
+    intros l k T. rewrite !in_map_iff. split.
+    - intros [o [Ek Ho]]. destruct (out_char cats ds sts na h nchunks false l o T Ho) as [x [rest [Ef [Eo [_ Hx]]]]].
       exists x. split; [|exact Hx]. rewrite <- Ek.
       assert (Hi : In x (filter (SAME o) l)) by (rewrite Ef; left; reflexivity).
       apply (proj1 (filter_In _ _ _)) in Hi. destruct Hi as [_ Hi]. apply same_key_key in Hi. auto.
     - intros [r [Ek Hr]]. pose proof (batch_of cats na h nchunks l r Hr) as Hb.
       assert (Hi : In r (filter (SAME r) l)) by (apply filter_In; split; [exact Hr | apply same_key_refl]).
       destruct (filter (SAME r) l) as [|x rest] eqn:Ef; [destruct Hi|].
-      exists (merge1 na sts x rest). split.
-      + rewrite <- Ek. rewrite key_merge1.
-        * assert (Hx : In x (filter (SAME r) l)) by (rewrite Ef; left; reflexivity).
-          apply (proj1 (filter_In _ _ _)) in Hx. destruct Hx as [_ Hx]. apply same_key_key in Hx. auto.
-        * intros r' Hr'.
-          assert (H1 : In r' (filter (SAME r) l)) by (rewrite Ef; right; exact Hr').
-          assert (H2 : In x (filter (SAME r) l)) by (rewrite Ef; left; reflexivity).
-          apply (proj1 (filter_In _ _ _)) in H1. apply (proj1 (filter_In _ _ _)) in H2.
-          destruct H1 as [_ H1]. destruct H2 as [_ H2]. apply same_key_key in H1. apply same_key_key in H2. congruence.
+      exists (merge1 ds na sts x rest). split.
+      + rewrite <- Ek. destruct (class_members cats na l r x rest (eq_sym Ef)) as [_ [Kx [_ Ef']]].
+        rewrite (key_merge1_class cats ds sts na l x rest T Ef'). exact Kx.
       + apply out_of_batch; [exact Hb | apply keep_false].
   Qed.
 
-  Lemma uniq_count : forall ns l o, In o (UNIQ ns l) -> ucount o = zsum ucount (filter (SAME o) l).
+  Lemma uniq_count : forall ns l o, pos_counts l -> TYPED l -> In o (UNIQ ns l) -> ucount o = zsum ucount (filter (SAME o) l).
   Proof.
-    intros ns l o Ho. destruct (out_char cats sts na h nchunks ns l o Ho) as [x [rest [Ef [Eo _]]]].
-    rewrite Ef, Eo. apply merge1_count.
+    intros ns l o P T Ho. destruct (out_char cats ds sts na h nchunks ns l o T Ho) as [x [rest [Ef [Eo [_ Hx]]]]].
+    rewrite Ef, Eo, merge1_mergef by (apply P; exact Hx). apply mergef_count.
+    intros r Hr. apply P. rewrite <- Ef in Hr. apply (proj1 (filter_In _ _ _) Hr).
   Qed.
 
-  Lemma uniq_merged : forall ns l o k, In o (UNIQ ns l) -> In k sts ->
+  Lemma uniq_merged : forall ns l o k, pos_counts l -> TYPED l -> In o (UNIQ ns l) -> In k sts ->
     exists m, lookup k (umerged o) = Some m /\
-              forall v, stat_get v m = zsum (fun r => stat_get v (smap na r k)) (filter (SAME o) l).
+              forall v, stat_get v m = zsum (fun r => stat_get v (smap ds na r k)) (filter (SAME o) l).
   Proof.
-    intros ns l o k Ho Hk. destruct (out_char cats sts na h nchunks ns l o Ho) as [x [rest [Ef [Eo _]]]].
-    destruct (merge1_stats na sts k 0 x rest Hk) as [m [Hm _]]. exists m. split; [rewrite Eo; exact Hm|].
-    intro v. destruct (merge1_stats na sts k v x rest Hk) as [m' [Hm' Hs]]. rewrite Ef. congruence.
+    intros ns l o k P T Ho Hk. destruct (out_char cats ds sts na h nchunks ns l o T Ho) as [x [rest [Ef [Eo [_ Hx]]]]].
+    rewrite merge1_mergef in Eo by (apply P; exact Hx).
+    destruct (mergef_stats ds na sts k 0 x rest Hk) as [m [Hm _]]. exists m. split; [rewrite Eo; exact Hm|].
+    intro v. destruct (mergef_stats ds na sts k v x rest Hk) as [m' [Hm' Hs]]. rewrite Ef. congruence.
   Qed.
 
-  Lemma uniq_total_conserved : forall l, zsum ucount (UNIQ false l) = zsum ucount l.
+  Lemma uniq_total_conserved : forall l, pos_counts l -> zsum ucount (UNIQ false l) = zsum ucount l.
   Proof.
-    intro l. rewrite <- (uniq_total cats sts na h nchunks false l).
+    intros l P. rewrite <- (uniq_total cats ds sts na h nchunks false l P).
     rewrite (filter_false (fun g => negb (keep false g))); [cbn; lia | reflexivity].
   Qed.
 
@@ -648,11 +779,11 @@ Section Statements.
   Lemma keep_true : forall g, keep true g = negb (match g with [r] => (ucount r =? 1)%Z | _ => false end).
   Proof. reflexivity. Qed.
 
-  Lemma uniq_nosingleton_keys : forall l k,
-    In k (map KEY (UNIQ true l)) <-> exists x, In x l /\ KEY x = k /\ singleton_one x l = false.
+  Lemma uniq_nosingleton_keys : forall l k, TYPED l ->
+    (In k (map KEY (UNIQ true l)) <-> exists x, In x l /\ KEY x = k /\ singleton_one x l = false).
   Proof.
-    intros l k. rewrite in_map_iff. split.
-    - intros [o [Ek Ho]]. destruct (out_char cats sts na h nchunks true l o Ho) as [x [rest [Ef [Eo [Hk Hx]]]]].
+    intros l k T. rewrite in_map_iff. split.
+    - intros [o [Ek Ho]]. destruct (out_char cats ds sts na h nchunks true l o T Ho) as [x [rest [Ef [Eo [Hk Hx]]]]].
       assert (Hi : In x (filter (SAME o) l)) by (rewrite Ef; left; reflexivity).
       apply (proj1 (filter_In _ _ _)) in Hi. destruct Hi as [_ Hi]. apply same_key_key in Hi.
       exists x. split; [exact Hx | split; [congruence|]].
@@ -662,15 +793,9 @@ Section Statements.
       assert (Hi : In r (filter (SAME r) l)) by (apply filter_In; split; [exact Hr | apply same_key_refl]).
       unfold singleton_one in Hs.
       destruct (filter (SAME r) l) as [|x rest] eqn:Ef; [destruct Hi|].
-      exists (merge1 na sts x rest). split.
-      + rewrite <- Ek. rewrite key_merge1.
-        * assert (Hx : In x (filter (SAME r) l)) by (rewrite Ef; left; reflexivity).
-          apply (proj1 (filter_In _ _ _)) in Hx. destruct Hx as [_ Hx]. apply same_key_key in Hx. auto.
-        * intros r' Hr'.
-          assert (H1 : In r' (filter (SAME r) l)) by (rewrite Ef; right; exact Hr').
-          assert (H2 : In x (filter (SAME r) l)) by (rewrite Ef; left; reflexivity).
-          apply (proj1 (filter_In _ _ _)) in H1. apply (proj1 (filter_In _ _ _)) in H2.
-          destruct H1 as [_ H1]. destruct H2 as [_ H2]. apply same_key_key in H1. apply same_key_key in H2. congruence.
+      exists (merge1 ds na sts x rest). split.
+      + rewrite <- Ek. destruct (class_members cats na l r x rest (eq_sym Ef)) as [_ [Kx [_ Ef']]].
+        rewrite (key_merge1_class cats ds sts na l x rest T Ef'). exact Kx.
       + apply out_of_batch; [exact Hb|]. rewrite keep_true. rewrite Hs. reflexivity.
   Qed.
 
@@ -694,10 +819,10 @@ Section Statements.
     - split; [discriminate|]. intro H. pose proof (zsum_ge ucount _ Hp) as G. cbn [length] in G. lia.
   Qed.
 
-  Lemma uniq_total_nosingleton : forall l,
+  Lemma uniq_total_nosingleton : forall l, pos_counts l ->
     (zsum ucount (UNIQ true l) + Z.of_nat (length (filter (fun g => negb (keep true g)) (BATCHES l))))%Z = zsum ucount l.
   Proof.
-    intro l. rewrite <- (uniq_total cats sts na h nchunks true l). f_equal.
+    intros l P. rewrite <- (uniq_total cats ds sts na h nchunks true l P). f_equal.
     induction (BATCHES l) as [|g bs IH]; [reflexivity|]. cbn [filter].
     destruct (keep true g) eqn:Ek; cbn [negb]; [exact IH|].
     cbn [length zsum]. rewrite <- IH. rewrite keep_true in Ek. apply negb_false_iff in Ek.
@@ -721,11 +846,11 @@ Section Statements.
   (* surviving annotations *)
   Definition wf (r : urec) : Prop := NoDup (map fst (uann r)).
 
-  Lemma uniq_ann : forall ns l o k v, (forall r, In r l -> wf r) -> In o (UNIQ ns l) ->
+  Lemma uniq_ann : forall ns l o k v, TYPED l -> (forall r, In r l -> wf r) -> In o (UNIQ ns l) ->
     (In (k, v) (uann o) <-> forall r, In r (filter (SAME o) l) -> lookup k (uann r) = Some v).
   Proof.
-    intros ns l o k v Hwf Ho. destruct (out_char cats sts na h nchunks ns l o Ho) as [x [rest [Ef [Eo [_ Hx]]]]].
-    rewrite Ef, Eo, (merge1_ann na sts x rest (k, v)). cbn [fst snd].
+    intros ns l o k v T Hwf Ho. destruct (out_char cats ds sts na h nchunks ns l o T Ho) as [x [rest [Ef [Eo [_ Hx]]]]].
+    rewrite Ef, Eo. rewrite (proj2 (merge1_seq_ann ds na sts x rest)), (mergef_ann ds na sts x rest (k, v)). cbn [fst snd].
     rewrite (in_lookup_iff k (uann x) v (Hwf x Hx)). split.
     - intros [H1 H2] r [E|Hr]; [subst r; exact H1 | apply H2; exact Hr].
     - intro H. split; [apply H; left; reflexivity | intros r Hr; apply H; right; exact Hr].
@@ -735,6 +860,7 @@ End Statements.
 (** * independence of arrival order, hash function and number of chunks *)
 Section Independence.
   Variable cats : list N.
+  Variable ds : dspec.
   Variable sts : list N.
   Variable na : N.
 
@@ -757,12 +883,14 @@ Section Independence.
     apply Permutation_length_1 in P. subst a'. reflexivity.
   Qed.
 
-  Lemma uniq_independent : forall h n h' n' ns l l', Permutation l l' -> (forall r, In r l -> wf r) ->
-    forall o, In o (uniq h n cats sts na ns l) ->
-    exists o', In o' (uniq h' n' cats sts na ns l') /\ same_proj o o'.
+  Lemma uniq_independent : forall h n h' n' ns l l', Permutation l l' -> pos_counts l -> typed cats l -> (forall r, In r l -> wf r) ->
+    forall o, In o (uniq h n cats ds sts na ns l) ->
+    exists o', In o' (uniq h' n' cats ds sts na ns l') /\ same_proj o o'.
   Proof.
-    intros h n h' n' ns l l' P Hwf o Ho.
-    destruct (out_char cats sts na h n ns l o Ho) as [x [rest [Ef [Eo [Hk Hx]]]]].
+    intros h n h' n' ns l l' P PC T Hwf o Ho.
+    assert (PC' : pos_counts l') by (intros r Hr; apply PC; apply (Permutation_in _ (Permutation_sym P)); exact Hr).
+    pose proof (typed_perm cats l l' P T) as T'.
+    destruct (out_char cats ds sts na h n ns l o T Ho) as [x [rest [Ef [Eo [Hk Hx]]]]].
     assert (Hx' : In x l') by (apply (Permutation_in _ P); exact Hx).
     assert (Kx : KEY x = KEY o).
     { assert (Hi : In x (filter (SAME o) l)) by (rewrite Ef; left; reflexivity).
@@ -772,31 +900,36 @@ Section Independence.
     pose proof (Permutation_filter (SAME o) _ _ P) as Pg. rewrite Ef in Pg.
     destruct (filter (SAME o) l') as [|x' rest'] eqn:Ef'; [apply Permutation_sym, Permutation_nil in Pg; discriminate|].
     assert (Hk' : keep ns (x' :: rest') = true) by (rewrite <- (keep_perm ns _ _ Pg); exact Hk).
-    exists (merge1 na sts x' rest'). split; [apply out_of_batch; assumption|].
+    exists (merge1 ds na sts x' rest'). split; [apply out_of_batch; assumption|].
+    assert (Px : pos_counts (x :: rest)) by (apply (class_pos cats na l x rest PC); rewrite <- Ef; apply filter_ext; intro r; apply same_key_ext; exact Kx).
+    assert (Hx'l : In x' l') by (assert (Hi : In x' (filter (SAME o) l')) by (rewrite Ef'; left; reflexivity); apply (proj1 (filter_In _ _ _) Hi)).
+    assert (Px' : pos_counts (x' :: rest')) by (intros r Hr; apply PC'; rewrite <- Ef' in Hr; apply (proj1 (filter_In _ _ _) Hr)).
+    rewrite merge1_mergef in Eo by (apply PC; exact Hx).
+    rewrite (merge1_mergef ds na sts x' rest') by (apply PC'; exact Hx'l).
     assert (Hmem : forall r, In r (x :: rest) -> KEY r = KEY o).
     { intros r Hr. rewrite <- Ef in Hr. apply (proj1 (filter_In _ _ _)) in Hr. destruct Hr as [_ Hr].
       apply same_key_key in Hr. auto. }
     assert (Hmem' : forall r, In r (x' :: rest') -> KEY r = KEY o).
     { intros r Hr. apply Hmem. apply (Permutation_in _ (Permutation_sym Pg)). exact Hr. }
-    assert (Ko' : KEY (merge1 na sts x' rest') = KEY o).
-    { rewrite key_merge1; [apply Hmem'; left; reflexivity|].
-      intros r Hr. rewrite (Hmem' r (or_intror Hr)). symmetry. apply Hmem'. left. reflexivity. }
-    unfold same_proj. rewrite Eo at 1 2 3. rewrite !merge1_seq, !merge1_count.
+    assert (Ko' : KEY (mergef ds na sts x' rest') = KEY o).
+    { destruct (class_members cats na l' o x' rest' (eq_sym Ef')) as [_ [Kx' [_ Ef'']]].
+      rewrite (key_mergef_class cats ds sts na l' x' rest' T' Ef''). exact Kx'. }
+    unfold same_proj. rewrite Eo at 1 2 3. rewrite !mergef_seq, !mergef_count by assumption.
     assert (Kxx : KEY x = KEY x') by (rewrite Kx; symmetry; apply Hmem'; left; reflexivity).
     split; [unfold key in Kxx; congruence|].
     split; [unfold key in Ko'; rewrite <- Eo; inversion Ko'; congruence|].
     split; [apply zsum_perm; exact Pg|].
     split.
-    - intros k Hk0. destruct (merge1_stats na sts k 0 x rest Hk0) as [m [Hm _]].
-      destruct (merge1_stats na sts k 0 x' rest' Hk0) as [m' [Hm' _]].
+    - intros k Hk0. destruct (mergef_stats ds na sts k 0 x rest Hk0) as [m [Hm _]].
+      destruct (mergef_stats ds na sts k 0 x' rest' Hk0) as [m' [Hm' _]].
       exists m, m'. split; [rewrite Eo; exact Hm | split; [exact Hm'|]].
-      intro v. destruct (merge1_stats na sts k v x rest Hk0) as [m1 [Hm1 Hs1]].
-      destruct (merge1_stats na sts k v x' rest' Hk0) as [m1' [Hm1' Hs1']].
+      intro v. destruct (mergef_stats ds na sts k v x rest Hk0) as [m1 [Hm1 Hs1]].
+      destruct (mergef_stats ds na sts k v x' rest' Hk0) as [m1' [Hm1' Hs1']].
       assert (m1 = m) by congruence. assert (m1' = m') by congruence. subst m1 m1'.
       rewrite Hs1, Hs1'. apply zsum_perm. exact Pg.
     - intros [k v]. rewrite Eo.
       assert (Hwf' : forall r, In r l' -> wf r) by (intros r Hr; apply Hwf; apply (Permutation_in _ (Permutation_sym P)); exact Hr).
-      rewrite (merge1_ann na sts x rest (k, v)), (merge1_ann na sts x' rest' (k, v)). cbn [fst snd].
+      rewrite (mergef_ann ds na sts x rest (k, v)), (mergef_ann ds na sts x' rest' (k, v)). cbn [fst snd].
       assert (Hxl' : In x' l').
       { assert (Hi : In x' (filter (SAME o) l')) by (rewrite Ef'; left; reflexivity). apply (proj1 (filter_In _ _ _) Hi). }
       rewrite (in_lookup_iff k (uann x) v (Hwf x Hx)), (in_lookup_iff k (uann x') v (Hwf' x' Hxl')).
@@ -810,13 +943,16 @@ Section Independence.
         pose proof (A _ _ (Permutation_sym Pg) H) as H'. split; [apply H'; left; reflexivity | intros r Hr; apply H'; right; exact Hr].
   Qed.
 
-  Lemma uniq_order_independent : forall h n ns l l', Permutation l l' -> (forall r, In r l -> wf r) ->
-    forall o, In o (uniq h n cats sts na ns l) ->
-    exists o', In o' (uniq h n cats sts na ns l') /\ same_proj o o'.
+  Lemma uniq_order_independent : forall h n ns l l', Permutation l l' -> pos_counts l -> typed cats l -> (forall r, In r l -> wf r) ->
+    forall o, In o (uniq h n cats ds sts na ns l) ->
+    exists o', In o' (uniq h n cats ds sts na ns l') /\ same_proj o o'.
   Proof. intros h n. exact (uniq_independent h n h n). Qed.
 End Independence.
 
 (** * obidemerge *)
+Lemma typed_nil : forall l, typed [] l.
+Proof. intros l x r c _ _ []. Qed.
+
 Section Demerge.
   Variable na : N.
   Variable k : N.
@@ -840,14 +976,14 @@ Section Demerge.
   (* the demerged copies of a record contribute exactly its map to the next dereplication *)
   Lemma demerge1_contrib : forall r m v, lookup k (umerged r) = Some m ->
     (forall vw, In vw m -> (1 <= snd vw)%Z) ->
-    zsum (fun r' => stat_get v (smap na r' k)) (demerge1 k r) = stat_get v m.
+    zsum (fun r' => stat_get v (smap dflt na r' k)) (demerge1 k r) = stat_get v m.
   Proof.
     intros r m v Hm Hpos. unfold demerge1. rewrite Hm. rewrite zsum_map.
     clear Hm. induction m as [|[v' w] t IH]; cbn [zsum stat_get]; [reflexivity|].
     rewrite IH; [|intros vw Hvw; apply Hpos; right; exact Hvw]. f_equal.
-    unfold smap. cbn [umerged]. rewrite lookup_mremove. unfold aval. cbn [uann lookup fst snd ucount]. rewrite N.eqb_refl.
+    unfold smap. cbn [umerged]. rewrite lookup_mremove. unfold sval, wgt, dflt. cbn [uann lookup fst snd ucount strval vstat]. rewrite N.eqb_refl.
     pose proof (Hpos (v', w) (or_introl eq_refl)) as Hw. cbn [snd] in Hw.
-    destruct (w <? 1)%Z eqn:E; [apply Z.ltb_lt in E; lia|]. cbn [stat_get]. lia.
+    rewrite clamp1_pos by exact Hw. cbn [stat_get strval vstat]. lia.
   Qed.
 
   Lemma demerge1_count : forall r m, lookup k (umerged r) = Some m ->
@@ -857,7 +993,7 @@ Section Demerge.
     clear Hm. induction m as [|[v' w] t IH]; cbn [zsum]; [reflexivity|].
     rewrite IH; [|intros vw Hvw; apply Hpos; right; exact Hvw]. f_equal. cbn [ucount snd].
     pose proof (Hpos (v', w) (or_introl eq_refl)) as Hw. cbn [snd] in Hw.
-    destruct (w <? 1)%Z eqn:E; [apply Z.ltb_lt in E; lia | reflexivity].
+    rewrite clamp1_pos by exact Hw. reflexivity.
   Qed.
 
   Lemma filter_flat_map {A B} (p : B -> bool) (F : A -> list B) l : filter p (flat_map F l) = flat_map (fun a => filter p (F a)) l.
@@ -890,25 +1026,40 @@ Section Demerge.
       + intros r Hr. apply Hno. rewrite (demerge1_seq _ _ Hr). intro Hc. apply Hnotin. rewrite Hc. apply in_map. exact Hin.
   Qed.
 
+  Lemma uniq_out_pos : forall cats ds sts h n ns l, pos_counts (uniq h n cats ds sts na ns l).
+  Proof.
+    intros cats ds sts h n ns l o Ho. destruct (out_class cats ds sts na h n ns l o Ho) as [x [rest [_ [Eo _]]]].
+    rewrite Eo. apply merge1_count_ge.
+  Qed.
+
+  Lemma demerge_pos : forall outs, pos_counts outs -> pos_counts (demerge k outs).
+  Proof.
+    intros outs P r Hr. unfold demerge in Hr. apply in_flat_map in Hr. destruct Hr as [o [Ho Hr]].
+    unfold demerge1 in Hr. destruct (lookup k (umerged o)) as [m|].
+    - apply in_map_iff in Hr. destruct Hr as [vw [E _]]. subst r. cbn [ucount]. apply clamp1_ge.
+    - destruct Hr as [E|[]]. subst r. apply P. exact Ho.
+  Qed.
+
   (* obiuniq -m k | obidemerge -d k | obiuniq -m k  =  obiuniq -m k  on (sequence, merged_<k> map, total of the map) *)
-  Lemma demerge_inverse : forall h n h' n' l,
-    let out1 := uniq h n [] [k] na false l in
+  Lemma demerge_inverse : forall h n h' n' l, pos_counts l ->
+    let out1 := uniq h n [] dflt [k] na false l in
     (forall o m vw, In o out1 -> lookup k (umerged o) = Some m -> In vw m -> (1 <= snd vw)%Z) ->
-    forall o2, In o2 (uniq h' n' [] [k] na false (demerge k out1)) ->
+    forall o2, In o2 (uniq h' n' [] dflt [k] na false (demerge k out1)) ->
     exists o1 m1 m2, In o1 out1 /\ useq o2 = useq o1 /\
       lookup k (umerged o1) = Some m1 /\ lookup k (umerged o2) = Some m2 /\
       (forall v, stat_get v m2 = stat_get v m1) /\ ucount o2 = zsum snd m1.
   Proof.
-    intros h n h' n' l out1 Hpos o2 Ho2.
-    destruct (out_char [] [k] na h' n' false _ o2 Ho2) as [x2 [rest2 [Ef [Eo [_ Hx2]]]]].
+    intros h n h' n' l PC out1 Hpos o2 Ho2.
+    assert (PC2 : pos_counts (demerge k out1)) by (apply demerge_pos; apply uniq_out_pos).
+    destruct (out_char [] dflt [k] na h' n' false _ o2 (typed_nil _) Ho2) as [x2 [rest2 [Ef [Eo [_ Hx2]]]]].
     unfold demerge in Hx2. apply in_flat_map in Hx2. destruct Hx2 as [o1 [Ho1 Hx2]].
     assert (Hk : In k [k]) by (left; reflexivity).
-    destruct (uniq_merged [] [k] na h n false l o1 k Ho1 Hk) as [m1 [Hm1 _]].
-    destruct (uniq_merged [] [k] na h' n' false _ o2 k Ho2 Hk) as [m2 [Hm2 Hs2]].
+    destruct (uniq_merged [] dflt [k] na h n false l o1 k PC (typed_nil _) Ho1 Hk) as [m1 [Hm1 _]].
+    destruct (uniq_merged [] dflt [k] na h' n' false _ o2 k PC2 (typed_nil _) Ho2 Hk) as [m2 [Hm2 Hs2]].
     assert (Hseq : useq o2 = useq o1).
-    { rewrite Eo, merge1_seq. apply demerge1_seq. exact Hx2. }
+    { rewrite Eo, (proj1 (merge1_seq_ann dflt na [k] x2 rest2)), mergef_seq. apply demerge1_seq. exact Hx2. }
     assert (Hnd : NoDup (map useq out1)).
-    { pose proof (uniq_keys_nodup [] [k] na h n false l) as H. fold out1 in H.
+    { pose proof (uniq_keys_nodup [] dflt [k] na h n false l (typed_nil _)) as H. fold out1 in H.
       apply (NoDup_map_inv (fun s => (s, @nil N))). rewrite map_map. exact H. }
     assert (Ecls : filter (same_key [] na o2) (demerge k out1) = demerge1 k o1).
     { apply filter_demerge_unique; auto.
@@ -917,22 +1068,22 @@ Section Demerge.
         destruct (lN_eqb (useq o1) (useq r)) eqn:E; [apply lN_eqb_eq in E; congruence | reflexivity]. }
     exists o1, m1, m2. repeat split; auto.
     - intro v. rewrite Hs2, Ecls. apply demerge1_contrib; [exact Hm1|]. intros vw Hvw. exact (Hpos o1 m1 vw Ho1 Hm1 Hvw).
-    - rewrite (uniq_count [] [k] na h' n' false _ o2 Ho2), Ecls.
+    - rewrite (uniq_count [] dflt [k] na h' n' false _ o2 PC2 (typed_nil _) Ho2), Ecls.
       apply demerge1_count; [exact Hm1|]. intros vw Hvw. exact (Hpos o1 m1 vw Ho1 Hm1 Hvw).
   Qed.
 
   (* nothing is lost by the round trip: every record with a non-empty map is found again *)
   Lemma demerge_inverse_onto : forall h n h' n' l o1 m1,
-    In o1 (uniq h n [] [k] na false l) -> lookup k (umerged o1) = Some m1 -> m1 <> [] ->
-    exists o2, In o2 (uniq h' n' [] [k] na false (demerge k (uniq h n [] [k] na false l))) /\ useq o2 = useq o1.
+    In o1 (uniq h n [] dflt [k] na false l) -> lookup k (umerged o1) = Some m1 -> m1 <> [] ->
+    exists o2, In o2 (uniq h' n' [] dflt [k] na false (demerge k (uniq h n [] dflt [k] na false l))) /\ useq o2 = useq o1.
   Proof.
     intros h n h' n' l o1 m1 Ho1 Hm1 Hne.
     destruct m1 as [|vw t]; [congruence|].
-    set (r := mkrec (useq o1) (if (snd vw <? 1)%Z then 1%Z else snd vw) ((k, fst vw) :: mremove k (uann o1)) (mremove k (umerged o1))).
-    assert (Hr : In r (demerge k (uniq h n [] [k] na false l))).
+    set (r := mkrec (useq o1) (if (snd vw <? 1)%Z then 1%Z else snd vw) ((k, strval (fst vw)) :: mremove k (uann o1)) (mremove k (umerged o1))).
+    assert (Hr : In r (demerge k (uniq h n [] dflt [k] na false l))).
     { unfold demerge. apply in_flat_map. exists o1. split; [exact Ho1|]. unfold demerge1. rewrite Hm1. left. reflexivity. }
-    assert (Hkey : In (key [] na r) (map (key [] na) (demerge k (uniq h n [] [k] na false l)))) by (apply in_map; exact Hr).
-    apply (uniq_keys_exact [] [k] na h' n') in Hkey. apply in_map_iff in Hkey. destruct Hkey as [o2 [Ek Ho2]].
+    assert (Hkey : In (key [] na r) (map (key [] na) (demerge k (uniq h n [] dflt [k] na false l)))) by (apply in_map; exact Hr).
+    apply (uniq_keys_exact [] dflt [k] na h' n' _ _ (typed_nil _)) in Hkey. apply in_map_iff in Hkey. destruct Hkey as [o2 [Ek Ho2]].
     exists o2. split; [exact Ho2|]. unfold key in Ek. inversion Ek. reflexivity.
   Qed.
 End Demerge.
@@ -962,64 +1113,74 @@ Proof.
   - intros y Hy. apply H2. right. exact Hy.
 Qed.
 
-Lemma smap_pos : forall na r k, pos_rec r -> pos_stats (smap na r k).
+(* descriptors without weight attribute: the weight of a record is its count *)
+Definition unweighted (ds : dspec) (sts : list N) : Prop := forall k, In k sts -> snd (ds k) = None.
+
+Lemma wgt_unweighted : forall ds r k, snd (ds k) = None -> wgt ds r k = ucount r.
+Proof. intros ds r k H. unfold wgt. rewrite H. reflexivity. Qed.
+
+Lemma unweighted_dflt : forall sts, unweighted dflt sts.
+Proof. intros sts k _. reflexivity. Qed.
+
+Lemma smap_pos : forall ds na r k, snd (ds k) = None -> pos_rec r -> pos_stats (smap ds na r k).
 Proof.
-  intros na r k [Hc Hm]. unfold smap. destruct (lookup k (umerged r)) as [m|] eqn:E.
+  intros ds na r k U [Hc Hm]. unfold smap. destruct (lookup k (umerged r)) as [m|] eqn:E.
   - apply (Hm k). apply lookup_in. exact E.
-  - intros vw [Ev|[]]. subst vw. exact Hc.
+  - intros vw [Ev|[]]. subst vw. cbn [snd]. rewrite wgt_unweighted; assumption.
 Qed.
 
 Lemma in_others : forall ks m kv, In kv (others ks m) -> In kv m.
 Proof. intros ks m kv H. unfold others in H. apply (proj1 (filter_In _ _ _) H). Qed.
 
-Lemma init_pos : forall na sts r, pos_rec r -> pos_rec (init na sts r).
+Lemma init_pos : forall ds na sts r, unweighted ds sts -> pos_rec r -> pos_rec (init ds na sts r).
 Proof.
-  intros na sts r Hr. split; [apply Hr|]. intros k m Hin. cbn [init umerged] in Hin.
+  intros ds na sts r U Hr. split; [apply Hr|]. intros k m Hin. cbn [init umerged] in Hin.
   apply in_app_or in Hin. destruct Hin as [Hin|Hin].
-  - apply in_map_iff in Hin. destruct Hin as [k' [E _]]. inversion E; subst. apply smap_pos. exact Hr.
+  - apply in_map_iff in Hin. destruct Hin as [k' [E Hk']]. inversion E; subst. apply smap_pos; [apply U; exact Hk' | exact Hr].
   - apply in_others in Hin. apply (proj2 Hr k). exact Hin.
 Qed.
 
-Lemma merge2_pos : forall na sts acc r, pos_rec acc -> pos_rec r -> pos_rec (merge2 na sts acc r).
+Lemma merge2_pos : forall ds na sts acc r, unweighted ds sts -> pos_rec acc -> pos_rec r -> pos_rec (merge2 ds na sts acc r).
 Proof.
-  intros na sts acc r Ha Hr. split; [cbn [merge2 ucount]; destruct Ha, Hr; lia|].
+  intros ds na sts acc r U Ha Hr. split; [cbn [merge2 ucount]; apply clamp1_ge|].
   intros k m Hin. cbn [merge2 umerged] in Hin. apply in_app_or in Hin. destruct Hin as [Hin|Hin].
-  - apply in_map_iff in Hin. destruct Hin as [k' [E _]]. inversion E; subst. clear E.
+  - apply in_map_iff in Hin. destruct Hin as [k' [E Hk']]. inversion E; subst. clear E.
     destruct (lookup k (umerged r)) as [mmk|] eqn:El.
-    + apply stat_merge_pos; [apply smap_pos; exact Ha | apply (proj2 Hr k); apply lookup_in; exact El].
-    + apply stat_add_pos; [apply Hr | apply smap_pos; exact Ha].
+    + apply stat_merge_pos; [apply smap_pos; [apply U; exact Hk' | exact Ha] | apply (proj2 Hr k); apply lookup_in; exact El].
+    + apply stat_add_pos; [rewrite wgt_unweighted; [apply Hr | apply U; exact Hk'] | apply smap_pos; [apply U; exact Hk' | exact Ha]].
   - apply in_others in Hin. apply (proj2 Ha k). exact Hin.
 Qed.
 
-Lemma merge1_pos : forall na sts x rest, pos_rec x -> (forall r, In r rest -> pos_rec r) -> pos_rec (merge1 na sts x rest).
+Lemma mergef_pos : forall ds na sts x rest, unweighted ds sts -> pos_rec x -> (forall r, In r rest -> pos_rec r) -> pos_rec (mergef ds na sts x rest).
 Proof.
-  intros na sts x rest Hx. unfold merge1. pose proof (init_pos na sts x Hx) as H0. revert H0. generalize (init na sts x) as acc.
+  intros ds na sts x rest U Hx. unfold mergef. pose proof (init_pos ds na sts x U Hx) as H0. revert H0. generalize (init ds na sts x) as acc.
   induction rest as [|r rest IH]; intros acc Ha Hall; cbn [fold_left]; [exact Ha|].
-  apply IH; [apply merge2_pos; [exact Ha | apply Hall; left; reflexivity] | intros r' Hr'; apply Hall; right; exact Hr'].
+  apply IH; [apply merge2_pos; [exact U | exact Ha | apply Hall; left; reflexivity] | intros r' Hr'; apply Hall; right; exact Hr'].
 Qed.
 
-Lemma uniq_pos : forall cats sts na h n ns l, (forall r, In r l -> pos_rec r) ->
-  forall o, In o (uniq h n cats sts na ns l) -> pos_rec o.
+Lemma uniq_pos : forall cats ds sts na h n ns l, unweighted ds sts -> (forall r, In r l -> pos_rec r) ->
+  forall o, In o (uniq h n cats ds sts na ns l) -> pos_rec o.
 Proof.
-  intros cats sts na h n ns l Hl o Ho.
-  destruct (out_char cats sts na h n ns l o Ho) as [x [rest [Ef [Eo [_ Hx]]]]].
+  intros cats ds sts na h n ns l U Hl o Ho.
+  destruct (out_class cats ds sts na h n ns l o Ho) as [x [rest [Ef [Eo [_ Hx]]]]].
   assert (Hmem : forall r, In r (x :: rest) -> In r l) by (intros r Hr; rewrite <- Ef in Hr; apply (proj1 (filter_In _ _ _) Hr)).
-  rewrite Eo. apply merge1_pos; [apply Hl; exact Hx | intros r Hr; apply Hl; apply Hmem; right; exact Hr].
+  rewrite Eo, merge1_mergef by (apply (proj1 (Hl x Hx))).
+  apply mergef_pos; [exact U | apply Hl; exact Hx | intros r Hr; apply Hl; apply Hmem; right; exact Hr].
 Qed.
 
 Lemma demerge_inverse_pos : forall na k h n h' n' l,
   (forall r, In r l -> pos_rec r) ->
-  forall o2, In o2 (uniq h' n' [] [k] na false (demerge k (uniq h n [] [k] na false l))) ->
-  exists o1 m1 m2, In o1 (uniq h n [] [k] na false l) /\ useq o2 = useq o1 /\
+  forall o2, In o2 (uniq h' n' [] dflt [k] na false (demerge k (uniq h n [] dflt [k] na false l))) ->
+  exists o1 m1 m2, In o1 (uniq h n [] dflt [k] na false l) /\ useq o2 = useq o1 /\
     lookup k (umerged o1) = Some m1 /\ lookup k (umerged o2) = Some m2 /\
     (forall v, stat_get v m2 = stat_get v m1) /\ ucount o2 = zsum snd m1.
 Proof.
-  intros na k h n h' n' l Hl o2 Ho2. apply (demerge_inverse na k h n h' n' l); [|exact Ho2].
-  intros o m vw Ho Hm Hvw. destruct (uniq_pos [] [k] na h n false l Hl o Ho) as [_ Hp].
+  intros na k h n h' n' l Hl o2 Ho2. apply (demerge_inverse na k h n h' n' l); [intros r Hr; apply (proj1 (Hl r Hr)) | | exact Ho2].
+  intros o m vw Ho Hm Hvw. destruct (uniq_pos [] dflt [k] na h n false l (unweighted_dflt _) Hl o Ho) as [_ Hp].
   apply (Hp k m); [apply lookup_in; exact Hm | exact Hvw].
 Qed.
 
-(** * the weights of a merged_<k> map add up to the count (when it is so for the already merged inputs) *)
+(** * totals of the merged_<k> maps *)
 Lemma stat_add_total : forall v w m, zsum snd (stat_add v w m) = (zsum snd m + w)%Z.
 Proof.
   intros v w m. induction m as [|[x wx] t IH]; cbn [stat_add zsum snd]; [lia|].
@@ -1032,41 +1193,166 @@ Proof.
   rewrite IH, stat_add_total. lia.
 Qed.
 
+(* total weight a record brings to slot k: the total of its own map, or its weight *)
+Definition wcontrib (ds : dspec) (na : N) (k : N) (r : urec) : Z := zsum snd (smap ds na r k).
+
+Lemma wcontrib_raw : forall ds na k r, lookup k (umerged r) = None -> wcontrib ds na k r = wgt ds r k.
+Proof. intros ds na k r H. unfold wcontrib, smap. rewrite H. cbn [zsum snd]. lia. Qed.
+
+(* conservation of the total weight inside a class (weighted or not) *)
+Lemma mergef_wtotal : forall ds na sts k x rest, In k sts ->
+  exists m, lookup k (umerged (mergef ds na sts x rest)) = Some m /\ zsum snd m = zsum (wcontrib ds na k) (x :: rest).
+Proof.
+  intros ds na sts k x rest Hk. unfold mergef. cbn [zsum].
+  assert (H0 : exists m, lookup k (umerged (init ds na sts x)) = Some m /\ zsum snd m = wcontrib ds na k x).
+  { exists (smap ds na x k). split; [cbn [init umerged]; apply (lookup_map_in (fun k => smap ds na x k)); exact Hk | reflexivity]. }
+  revert H0. generalize (wcontrib ds na k x) as t0. generalize (init ds na sts x) as acc.
+  induction rest as [|r rest IH]; intros acc t0 [m [Hm Ht]]; cbn [fold_left zsum]; [exists m; split; [exact Hm | lia]|].
+  destruct (IH (merge2 ds na sts acc r) (t0 + wcontrib ds na k r)%Z) as [m' [Hm' Ht']].
+  - set (F := fun k => match lookup k (umerged r) with
+                       | Some mmk => stat_merge (smap ds na acc k) mmk
+                       | None => stat_add (sval na r (fst (ds k))) (wgt ds r k) (smap ds na acc k) end).
+    exists (F k). split; [cbn [merge2 umerged]; apply (lookup_map_in F); exact Hk|].
+    unfold F. assert (Ea : smap ds na acc k = m) by (unfold smap; rewrite Hm; reflexivity). rewrite Ea.
+    unfold wcontrib, smap. destruct (lookup k (umerged r)) as [mmk|].
+    + rewrite stat_merge_total, Ht. reflexivity.
+    + rewrite stat_add_total, Ht. cbn [zsum snd]. lia.
+  - exists m'. split; [exact Hm' | lia].
+Qed.
+
+Definition mtotal (k : N) (o : urec) : Z := match lookup k (umerged o) with Some m => zsum snd m | None => 0%Z end.
+
+Lemma uniq_class_wtotal : forall cats ds sts na h n ns l k, In k sts -> pos_counts l ->
+  forall o, In o (uniq h n cats ds sts na ns l) ->
+  exists x m, In x l /\ useq o = useq x /\ lookup k (umerged o) = Some m /\
+              zsum snd m = zsum (wcontrib ds na k) (filter (same_key cats na x) l).
+Proof.
+  intros cats ds sts na h n ns l k Hk P o Ho.
+  destruct (out_class cats ds sts na h n ns l o Ho) as [x [rest [Ef [Eo [_ Hx]]]]].
+  rewrite merge1_mergef in Eo by (apply P; exact Hx).
+  destruct (mergef_wtotal ds na sts k x rest Hk) as [m [Hm Ht]].
+  exists x, m. split; [exact Hx | split; [rewrite Eo; apply mergef_seq | split; [rewrite Eo; exact Hm | rewrite Ef; exact Ht]]].
+Qed.
+
+(* conservation of the total weight over the whole data set *)
+Lemma uniq_weight_conserved : forall cats ds sts na h n l k, In k sts -> pos_counts l ->
+  zsum (mtotal k) (uniq h n cats ds sts na false l) = zsum (wcontrib ds na k) l.
+Proof.
+  intros cats ds sts na h n l k Hk P.
+  rewrite <- (zsum_perm (wcontrib ds na k) _ _ (subclass_perm (levels h n cats na) l)). fold (batches h n cats na l).
+  unfold uniq. rewrite zsum_flat_map, zsum_concat.
+  rewrite (filter_true (keep false)); [|reflexivity].
+  apply zsum_ext_in. intros g Hg. destruct g as [|x rest]; [reflexivity|].
+  rewrite merge_class_cons. cbn [zsum].
+  rewrite merge1_mergef by (apply (batches_pos cats na h n l (x :: rest) P Hg); left; reflexivity).
+  destruct (mergef_wtotal ds na sts k x rest Hk) as [m [Hm Ht]].
+  unfold mtotal. rewrite Hm, Ht. cbn [zsum]. lia.
+Qed.
+
+(* without weight attribute: the weights of a merged_<k> map add up to the count (when it is so for the already merged inputs) *)
 Definition consistent (k : N) (r : urec) : Prop := forall m, lookup k (umerged r) = Some m -> zsum snd m = ucount r.
 
-Lemma smap_total : forall na r k, consistent k r -> zsum snd (smap na r k) = ucount r.
+Lemma wcontrib_consistent : forall ds na k r, snd (ds k) = None -> consistent k r -> wcontrib ds na k r = ucount r.
 Proof.
-  intros na r k Hc. unfold smap. destruct (lookup k (umerged r)) as [m|] eqn:E; [apply Hc; exact E | cbn; lia].
+  intros ds na k r U Hc. unfold wcontrib, smap. destruct (lookup k (umerged r)) as [m|] eqn:E; [apply Hc; exact E|].
+  cbn [zsum snd]. rewrite wgt_unweighted by exact U. lia.
 Qed.
 
-Lemma merge1_map_total : forall na sts k x rest, In k sts -> consistent k x -> (forall r, In r rest -> consistent k r) ->
-  exists m, lookup k (umerged (merge1 na sts x rest)) = Some m /\ zsum snd m = ucount (merge1 na sts x rest).
-Proof.
-  intros na sts k x rest Hk Hx. unfold merge1.
-  assert (H0 : exists m, lookup k (umerged (init na sts x)) = Some m /\ zsum snd m = ucount (init na sts x)).
-  { exists (smap na x k). split; [cbn [init umerged]; apply (lookup_map_in (fun k => smap na x k)); exact Hk|].
-    cbn [init ucount]. apply smap_total. exact Hx. }
-  revert H0. generalize (init na sts x) as acc.
-  induction rest as [|r rest IH]; intros acc [m [Hm Ht]] Hall; cbn [fold_left]; [exists m; split; assumption|].
-  apply IH; [|intros r' Hr'; apply Hall; right; exact Hr'].
-  set (F := fun k => match lookup k (umerged r) with
-                     | Some mmk => stat_merge (smap na acc k) mmk
-                     | None => stat_add (aval na r k) (ucount r) (smap na acc k) end).
-  exists (F k). split; [cbn [merge2 umerged]; apply (lookup_map_in F); exact Hk|].
-  cbn [merge2 ucount]. unfold F.
-  assert (Ea : smap na acc k = m) by (unfold smap; rewrite Hm; reflexivity). rewrite Ea.
-  pose proof (Hall r (or_introl eq_refl)) as Hr. unfold consistent in Hr.
-  destruct (lookup k (umerged r)) as [mmk|].
-  - rewrite stat_merge_total, Ht, (Hr mmk eq_refl). reflexivity.
-  - rewrite stat_add_total, Ht. reflexivity.
-Qed.
-
-Lemma uniq_map_total : forall cats sts na h n ns l k, In k sts -> (forall r, In r l -> consistent k r) ->
-  forall o, In o (uniq h n cats sts na ns l) ->
+Lemma uniq_map_total : forall cats ds sts na h n ns l k, In k sts -> snd (ds k) = None -> pos_counts l -> (forall r, In r l -> consistent k r) ->
+  forall o, In o (uniq h n cats ds sts na ns l) ->
   exists m, lookup k (umerged o) = Some m /\ zsum snd m = ucount o.
 Proof.
-  intros cats sts na h n ns l k Hk Hl o Ho.
-  destruct (out_char cats sts na h n ns l o Ho) as [x [rest [Ef [Eo [_ Hx]]]]].
+  intros cats ds sts na h n ns l k Hk U P Hl o Ho.
+  destruct (out_class cats ds sts na h n ns l o Ho) as [x [rest [Ef [Eo [_ Hx]]]]].
+  rewrite merge1_mergef in Eo by (apply P; exact Hx).
   assert (Hmem : forall r, In r (x :: rest) -> In r l) by (intros r Hr; rewrite <- Ef in Hr; apply (proj1 (filter_In _ _ _) Hr)).
-  rewrite Eo. apply merge1_map_total; [exact Hk | apply Hl; exact Hx | intros r Hr; apply Hl; apply Hmem; right; exact Hr].
+  destruct (mergef_wtotal ds na sts k x rest Hk) as [m [Hm Ht]].
+  exists m. split; [rewrite Eo; exact Hm|]. rewrite Ht, Eo, mergef_count by (intros r Hr; apply P; apply Hmem; exact Hr).
+  apply zsum_ext_in. intros r Hr. apply wcontrib_consistent; [exact U | apply Hl; apply Hmem; exact Hr].
+Qed.
+
+(** * the untyped characterisation: every output record is the merge of one whole class *)
+Lemma uniq_output_is_class : forall cats ds sts na h n ns l o, pos_counts l -> In o (uniq h n cats ds sts na ns l) ->
+  exists x, In x l /\ useq o = useq x /\ ucount o = zsum ucount (filter (same_key cats na x) l) /\
+    forall k, In k sts -> exists m, lookup k (umerged o) = Some m /\
+      forall v, stat_get v m = zsum (fun r => stat_get v (smap ds na r k)) (filter (same_key cats na x) l).
+Proof.
+  intros cats ds sts na h n ns l o P Ho.
+  destruct (out_class cats ds sts na h n ns l o Ho) as [x [rest [Ef [Eo [_ Hx]]]]].
+  rewrite merge1_mergef in Eo by (apply P; exact Hx).
+  exists x. split; [exact Hx | split; [rewrite Eo; apply mergef_seq | split; [rewrite Eo, Ef; apply mergef_count; apply (class_pos cats na l x rest P Ef)|]]].
+  intros k Hk. destruct (mergef_stats ds na sts k 0 x rest Hk) as [m [Hm _]]. exists m. split; [rewrite Eo; exact Hm|].
+  intro v. destruct (mergef_stats ds na sts k v x rest Hk) as [m' [Hm' Hs]]. rewrite Ef. congruence.
+Qed.
+
+(* per value the summed WEIGHT, when no member of the class is already merged *)
+Lemma zsum_stat_raw : forall ds na k v (g : list urec), (forall r, In r g -> lookup k (umerged r) = None) ->
+  zsum (fun r => stat_get v (smap ds na r k)) g = zsum (fun r => if v =? sval na r (fst (ds k)) then wgt ds r k else 0%Z) g.
+Proof.
+  intros ds na k v g H. apply zsum_ext_in. intros r Hr. unfold smap. rewrite (H r Hr). cbn [stat_get]. lia.
+Qed.
+
+(** * on-disk mode = in-memory mode, given the write/read round trip of the chunk files *)
+Lemma flat_map_ext_in' {A B} (F G : A -> list B) l : (forall a, In a l -> F a = G a) -> flat_map F l = flat_map G l.
+Proof. induction l as [|a l IH]; intro H; [reflexivity|]. cbn [flat_map]. rewrite (H a (or_introl eq_refl)), IH; [reflexivity|]. intros b Hb. apply H. right. exact Hb. Qed.
+
+Lemma batches_as_chunks : forall h n cats na l,
+  batches h n cats na l = flat_map (substep (sublevels cats na)) (groups (hash_class h n) l).
+Proof. intros. unfold batches, levels, sublevels. apply subclass_cons. Qed.
+
+Lemma disk_equals_memory : forall h n cats ds sts na ns (rt : urec -> urec) (ord : list (list urec) -> list (list urec)) l,
+  (forall r, In r l -> rt r = r) -> (forall gs, Permutation (ord gs) gs) ->
+  Permutation (uniq_disk h n cats ds sts na ns rt ord l) (uniq h n cats ds sts na ns l).
+Proof.
+  intros h n cats ds sts na ns rt ord l Hrt Hord. unfold uniq_disk, uniq.
+  apply Permutation_flat_map. apply Permutation_filter.
+  rewrite batches_as_chunks. unfold batches_disk.
+  rewrite (flat_map_ext_in' _ (substep (sublevels cats na))).
+  - apply Permutation_flat_map. apply Hord.
+  - intros ch Hch. f_equal. rewrite <- (map_id ch) at 2. apply map_ext_in. intros r Hr. apply Hrt.
+    apply (Permutation_in _ (Hord _)) in Hch. destruct (groups_char _ _ _ Hch) as [x [_ Eg]].
+    rewrite Eg in Hr. apply (proj1 (filter_In _ _ _) Hr).
+Qed.
+
+(** * the finding: with mixed types the merged record does not show the key of its class *)
+Definition mixed_witness : list urec :=
+  [mkrec [97] 1 [(1, mkval 1 7 7 7 (Some 1%Z))] [];      (* sample = 1   (number) *)
+   mkrec [97] 1 [(1, mkval 0 7 7 7 None)] [];            (* sample = "1" (string) *)
+   mkrec [97] 1 [] []].                                  (* no sample *)
+
+Lemma one_per_key_refuted : exists cats ds sts na h n l,
+  ~ NoDup (map (key cats na) (uniq h n cats ds sts na false l)).
+Proof.
+  exists [1], dflt, (@nil N), 9, sum_hash, 2%nat, mixed_witness.
+  vm_compute. intro H. inversion H as [|a t Hn _]. apply Hn. left. reflexivity.
+Qed.
+
+Lemma keys_exact_refuted : exists cats ds sts na h n l k,
+  In k (map (key cats na) (uniq h n cats ds sts na false l)) /\ ~ In k (map (key cats na) l).
+Proof.
+  exists [1], dflt, (@nil N), 9, sum_hash, 2%nat, (firstn 2 mixed_witness). eexists.
+  split; [vm_compute; left; reflexivity|]. vm_compute. intros [H|[H|[]]]; discriminate.
+Qed.
+
+(* per value the summed WEIGHT, for a class of raw (not yet merged) records *)
+Lemma uniq_merged_raw : forall cats ds sts na h n ns l o k, pos_counts l -> typed cats l -> In o (uniq h n cats ds sts na ns l) -> In k sts ->
+  (forall r, In r l -> lookup k (umerged r) = None) ->
+  exists m, lookup k (umerged o) = Some m /\
+    forall v, stat_get v m = zsum (fun r => if v =? sval na r (fst (ds k)) then wgt ds r k else 0%Z) (filter (same_key cats na o) l).
+Proof.
+  intros cats ds sts na h n ns l o k P T Ho Hk Hraw.
+  destruct (uniq_merged cats ds sts na h n ns l o k P T Ho Hk) as [m [Hm Hs]]. exists m. split; [exact Hm|].
+  intro v. rewrite Hs. apply zsum_stat_raw. intros r Hr. apply Hraw. apply (proj1 (filter_In _ _ _) Hr).
+Qed.
+
+(** * counts < 1 are outside the property: SetCount turns every intermediate total < 1 into 1, so that the count of a
+    class depends on the order in which its records are merged *)
+Lemma count_is_sum_nonpositive_refuted : exists l l' o o',
+  Permutation l l' /\ In o (uniq sum_hash 1 [] dflt [] 9 false l) /\ In o' (uniq sum_hash 1 [] dflt [] 9 false l') /\
+  useq o = useq o' /\ ucount o <> ucount o' /\ ucount o <> zsum ucount l.
+Proof.
+  exists [mkrec [97] 0 [] []; mkrec [97] 0 [] []; mkrec [97] 5 [] []], [mkrec [97] 5 [] []; mkrec [97] 0 [] []; mkrec [97] 0 [] []].
+  eexists. eexists. split; [|split; [vm_compute; left; reflexivity | split; [vm_compute; left; reflexivity|]]].
+  - apply perm_trans with [mkrec [97] 0 [] []; mkrec [97] 5 [] []; mkrec [97] 0 [] []]; [apply perm_skip; apply perm_swap | apply perm_swap].
+  - vm_compute. repeat split; discriminate.
 Qed.
